@@ -19,6 +19,7 @@ from common import quiet, zlit, zlist, blit
 NEEDED = ['Reg_clock', 'SynchronousMemory_clock', 'AutoReset_clock', 'Wire_put', 'Wire_prepare', 'Mux2_propagate', 'Or2_propagate',
           'And2_propagate', 'Not_propagate', 'Buf_propagate', 'Constant_propagate', 'AddCarryIn_propagate', 'BitsLSBF_propagate']
 PRELUDE = 'From V Require Import Base.PyInt Model.SeqBlocks Model.SeqBlocksRun Spec.C09.\n'
+PRELUDE_SPEC = 'From V Require Import Base.PyInt Model.SeqSpecRun Spec.C09.\n'        # independent of the regenerated definitions
 
 _py4hw = None
 def P():
@@ -83,10 +84,12 @@ class Inst:
                     k += 1
 
 
-def child(o, *path):
-    for p in path:
-        o = o.children[p]
-    return o
+def regs_of(o):
+    """the Reg leaves below o in construction order (found by class, not by instance name, so that renaming an
+    internal instance or wire does not disturb the harness); reg.q is the wire the register drives"""
+    return [x for x in netlist.all_objects(o) if type(x).__name__ == 'Reg']
+def one_of(o, cls):
+    return [x for x in netlist.all_objects(o) if type(x).__name__ == cls][0]
 
 
 # ------------------------------------------------------------------ block catalogue
@@ -153,7 +156,7 @@ class BTReg(Block):
             e = hw.wire('e', p['we']) if p['he'] else None
             r = hw.wire('r', p['wr']) if p['hr'] else None
             tr = py4hw.logic.storage.TReg(hw, 'treg', t, q, enable=e, reset=r)
-        reg = child(tr, 'reg')
+        reg = regs_of(tr)[0]
         ins = [t, e if e is not None else hw.wire('_e', 1), r if r is not None else hw.wire('_r', 1)]
         return Inst(hw, ins, lambda: [], lambda: [q.get()], lambda: [reg.value])
     def _rng(self, p): return (R(p['wt']), R(p['we']) if p['he'] else [0], R(p['wr']) if p['hr'] else [0])
@@ -178,7 +181,7 @@ class BCounter(Block):
             rs = hw.wire('reset', p['wc']) if p['hr'] else None
             inc = hw.wire('inc', p['wc']) if p['hi'] else None
             c = py4hw.logic.arithmetic.Counter(hw, 'cnt', rs, inc, q)
-        reg = child(c, 'reg')
+        reg = regs_of(c)[0]
         ins = [rs if rs is not None else hw.wire('_r', 1), inc if inc is not None else hw.wire('_i', 1)]
         return Inst(hw, ins, lambda: [], lambda: [q.get()], lambda: [reg.value])
     def _rng(self, p): return (R(p['wc']) if p['hr'] else [0], R(p['wc']) if p['hi'] else [0])
@@ -200,7 +203,7 @@ class BModCounter(Block):
             hw = py4hw.HWSystem()
             q, rs, inc, co = hw.wire('q', p['w']), hw.wire('reset', 1), hw.wire('inc', 1), hw.wire('carry', 1)
             c = py4hw.logic.arithmetic.ModuloCounter(hw, 'cnt', p['m'], rs, inc, q, co)
-        reg = child(c, 'reg')
+        reg = regs_of(c)[0]
         return Inst(hw, [rs, inc], lambda: [], lambda: [q.get(), co.get()], lambda: [reg.value])
     def alphabet(self, p): return prod(R(1), R(1))
     def rand_row(self, p, rng): return [int(rng.random() < .15), int(rng.random() < .8)]
@@ -221,7 +224,7 @@ class BStepUp(Block):
             q, inc, st = hw.wire('q', p['w']), hw.wire('inc', 1), hw.wire('step', p['ws'])
             rs = hw.wire('reset', 1) if p['hr'] else None
             c = py4hw.logic.arithmetic.StepUpCounter(hw, 'cnt', rs, inc, st, q)
-        reg = child(c, 'reg')
+        reg = regs_of(c)[0]
         return Inst(hw, [rs if rs is not None else hw.wire('_r', 1), inc, st], lambda: [], lambda: [q.get()], lambda: [reg.value])
     def _rng(self, p): return (R(1) if p['hr'] else [0], R(1), R(p['ws']))
     def alphabet(self, p): return prod(*self._rng(p)) if p['ws'] <= 3 else None
@@ -246,8 +249,8 @@ class BDelay(Block):
             en = hw.wire('en', 1) if p['he'] else None
             rs = hw.wire('reset', 1) if p['hr'] else None
             dl = py4hw.logic.storage.DelayLine(hw, 'dl', a, en, rs, r, p['delay'])
-        regs = [child(dl, 'r%d' % i) for i in range(p['delay'])]
-        qs = [dl._wires['r%d' % i] for i in range(p['delay'])]
+        regs = regs_of(dl); assert len(regs) == p['delay']
+        qs = [x.q for x in regs]
         ins = [a, en if en is not None else hw.wire('_e', 1), rs if rs is not None else hw.wire('_r', 1)]
         return Inst(hw, ins, lambda: [r.get()], lambda: [r.get()], lambda: [w.get() for w in qs] + [x.value for x in regs])
     def _rng(self, p): return (R(p['w']), R(1) if p['he'] else [0], R(1) if p['hr'] else [0])
@@ -271,7 +274,7 @@ class BPipe(Block):
             outs = [hw.wire('o%d' % k, w) for k, w in enumerate(p['wo'])]
             rs = hw.wire('reset', 1)
             pp = py4hw.logic.storage.PipelinePhase(hw, 'pp', rs, ins, outs)
-        regs = [child(pp, 'r%d' % k) for k in range(len(ins))]
+        regs = regs_of(pp); assert len(regs) == len(ins)
         return Inst(hw, ins + [rs], lambda: [], lambda: [w.get() for w in outs], lambda: [x.value for x in regs])
     def _rng(self, p): return tuple(R(w) for w in p['wi']) + (R(1),)
     def alphabet(self, p): return prod(*self._rng(p)) if sum(p['wi']) <= 5 else None
@@ -289,7 +292,7 @@ class BEdge(Block):
             hw = py4hw.HWSystem()
             a, r = hw.wire('a', 1), hw.wire('r', 1)
             ed = py4hw.logic.clock.EdgeDetector(hw, 'ed', a, r, p['dir'])
-        reg = child(ed, 'z1'); z1 = ed._wires['z1']
+        reg = regs_of(ed)[0]; z1 = reg.q
         return Inst(hw, [a], lambda: [r.get()], lambda: [r.get()], lambda: [z1.get(), reg.value])
     def alphabet(self, p): return [[0], [1]]
     def rand_row(self, p, rng): return [rng.randint(0, 1)]
@@ -311,10 +314,8 @@ class BClkDiv(Block):
             clkout = hw.wire('clkout', 1)
             rs = hw.wire('reset', 1) if p['hr'] else None
             cd = py4hw.logic.clock.ClockDivider(hw, 'cd', p['fin'], p['fout'], clkout, reset=rs)
-        cnt = child(cd, 'count'); q, t = cd._wires['q'], cd._wires['t']
-        eq = [c for n, c in cnt.children.items() if n.startswith('eq')][0]
+        eq = one_of(cd, 'EqualConstant'); creg, treg = regs_of(cd); q, t = creg.q, eq.r
         p['_n'], p['_qw'] = eq.v + 1, q.getWidth()          # what the constructor really built
-        creg, treg = child(cnt, 'reg'), child(cd, 'clkout', 'reg')
         return Inst(hw, [rs] if rs is not None else [], lambda: [], lambda: [clkout.get()], lambda: [q.get(), t.get(), creg.value, treg.value])
     def alphabet(self, p): return prod(R(1)) if p['hr'] else [[]]
     def rand_row(self, p, rng): return [int(rng.random() < .06)] if p['hr'] else []
@@ -338,8 +339,8 @@ class BShift(Block):
             li, ri, lo, ro = hw.wire('li', w), hw.wire('ri', w), hw.wire('lo', w), hw.wire('ro', w)
             sl, sr = hw.wire('sl', 1), hw.wire('sr', 1)
             s = py4hw.logic.storage.ShiftRegisterBidirectional(hw, 'srb', li, ri, lo, ro, sl, sr, p['depth'])
-        regs = [child(s, 'r%d' % i) for i in range(p['depth'])]
-        qs = [s._wires['q_%d' % i] for i in range(p['depth'])]
+        regs = regs_of(s); assert len(regs) == p['depth']
+        qs = [x.q for x in regs]
         return Inst(hw, [li, ri, sl, sr], lambda: [], lambda: [lo.get(), ro.get()], lambda: [x.get() for x in qs] + [x.value for x in regs])
     def alphabet(self, p): return prod(R(p['w']), R(p['w']), R(1), R(1)) if p['w'] <= 2 else None
     def rand_row(self, p, rng): return [rng.randrange(1 << p['w']), rng.randrange(1 << p['w']), int(rng.random() < .4), int(rng.random() < .5)]
@@ -361,10 +362,9 @@ class BStack(Block):
             din, dout, push, pop = hw.wire('din', w), hw.wire('dout', w), hw.wire('push', 1), hw.wire('pop', 1)
             em, fu = (hw.wire('empty', 1), hw.wire('full', 1)) if p['flags'] else (None, None)
             st = py4hw.logic.storage.Stack_ShiftRegister(hw, 'stk', din, dout, push, pop, em, fu, p['depth'])
-        s = child(st, 'shift')
-        regs = [child(s, 'r%d' % i) for i in range(p['depth'])]
-        qs = [s._wires['q_%d' % i] for i in range(p['depth'])]
-        dreg = child(st, 'dout')
+        allregs = regs_of(st); assert len(allregs) == p['depth'] + 1
+        regs, dreg = allregs[:-1], allregs[-1]          # the row of the shift register, then the output register
+        qs = [x.q for x in regs]
         return Inst(hw, [din, push, pop], lambda: [], lambda: [dout.get()], lambda: [x.get() for x in qs] + [x.value for x in regs] + [dreg.value])
     def alphabet(self, p): return prod(R(p['w']), R(1), R(1)) if p['w'] <= 2 else None
     def rand_row(self, p, rng): return [rng.randrange(1 << p['w']), int(rng.random() < .6), int(rng.random() < .35)]
@@ -424,7 +424,7 @@ def explore(blk, p, depth, cap):
     s0 = inst.snap()
     seen = {s0}
     frontier = [([], [row0], s0)]
-    cases = []
+    cases = [([], [row0])]                       # the power-up row
     for d in range(depth):
         nxt = []
         for hist, rows, s in frontier:
@@ -487,34 +487,51 @@ def coq_eval_nobuild(tag, prelude, items, timeout=900):
 
 
 def eval_batches(ctx, cases, tag):
-    """cases: list of dict(blk, p, hist, rows).  Returns list of (case, model_diff, spec_diff) for the failing ones."""
+    """cases: list of dict(blk, p, hist, rows).  Returns (failing, spec_only): failing = list of (case, model_diff, spec_diff).
+    When the block models no longer compile against the regenerated leaves, only the reference machines are evaluated
+    (spec_only = True): the search impl-vs-spec does not depend on the models."""
     B = min(1200, max(100, -(-len(cases) // 8)))         # 8 parallel case files: the fixed cost of a file (library loading) dominates
     batches = [cases[i:i + B] for i in range(0, len(cases), B)]
+    b = common.build(['Model/SeqBlocksRun.vo'], timeout=900)
+    spec_only = not b['ok']
+    if spec_only:
+        ctx.notes['model_library_broken'] = b['msg']
+        b2 = common.build(['Model/SeqSpecRun.vo'], timeout=900)
+        if not b2['ok']:
+            raise RuntimeError('cannot build Model/SeqSpecRun.vo: %s' % b2['msg'])
+    prelude = PRELUDE_SPEC if spec_only else PRELUDE
     def run(ib):
         i, batch = ib
         terms = []
         for c in batch:
             h = rows_term(c['hist'])
-            terms.append('cmp %s (%s %s) (%s %s)' % (rows_term(c['rows']), c['blk'].model(c['p']), h, c['blk'].spec(c['p']), h))
+            sp = '(%s %s)' % (c['blk'].spec(c['p']), h)
+            md = '' if spec_only else '(%s %s) ' % (c['blk'].model(c['p']), h)
+            if c['kind'] == 'explore' and c['hist']:
+                # every proper prefix of an exploration history is a case of its own: compare the last row only
+                terms.append('%s %d%%nat %s %s%s' % ('cmp_last_spec' if spec_only else 'cmp_last', len(c['hist']), zlist(c['rows'][-1]), md, sp))
+            else:
+                terms.append('%s %s %s%s' % ('cmp_spec' if spec_only else 'cmp', rows_term(c['rows']), md, sp))
         # long list literals elaborate super-linearly: chunks of 40 cases as separate definitions
         chunks = [terms[j:j + 40] for j in range(0, len(terms), 40)]
-        pre = PRELUDE + ''.join('Definition chunk%d := [%s].\n' % (j, ';\n '.join(ch)) for j, ch in enumerate(chunks))
+        pre = prelude + ''.join('Definition chunk%d := [%s].\n' % (j, ';\n '.join(ch)) for j, ch in enumerate(chunks))
         res = coq_eval_nobuild('%s_%d' % (tag, i), pre, [('f', 'failing (%s)' % ' ++ '.join('chunk%d' % j for j in range(len(chunks))))], timeout=900)
         un = lambda o: None if o is None else o[1]        # ('Some', (row, (column, impl, ours)))
         return [(batch[k], un(md), un(sd)) for (k, (md, sd)) in res['f']]
-    b = common.build(['Model/SeqBlocksRun.vo'], timeout=900)
-    if not b['ok']:
-        raise RuntimeError('cannot build Model/SeqBlocksRun.vo: %s' % b['msg'])
     out = []
     with ThreadPoolExecutor(max_workers=8) as ex:
         for r in ex.map(run, list(enumerate(batches))):
             out += r
-    return out
+    return out, spec_only
 
 
 def spec_rows(blk, p, hist):
-    res = common.coq_eval('C09_specrows', PRELUDE, [('s', '%s %s' % (blk.spec(p), rows_term(hist))), ('m', '%s %s' % (blk.model(p), rows_term(hist)))])
-    return res['s'], res['m']
+    s = coq_eval_nobuild('C09_specrows', PRELUDE_SPEC, [('s', '%s %s' % (blk.spec(p), rows_term(hist)))])['s']
+    try:
+        m = coq_eval_nobuild('C09_modelrows', PRELUDE, [('m', '%s %s' % (blk.model(p), rows_term(hist)))])['m']
+    except Exception:
+        m = None                    # the block models do not compile against the regenerated leaves
+    return s, m
 
 
 def run_impl(blk, p, hist):
@@ -621,10 +638,11 @@ def sweep(ctx, tier_quick, only=None, boost=1):
     """returns (spec_failures, model_failures): lists of (case, model_diff, spec_diff)"""
     cases = []
     stats = {}
+    raised = set()
     rng = random.Random(ctx.seed * 7919 + (0 if tier_quick else 1) + boost)
-    depth = (4 if tier_quick else 6) + (boost - 1)
-    cap = (250 if tier_quick else 6000) * boost
-    nrand, lrand = ((2, 14) if tier_quick else (12, 48))
+    depth = (6 if tier_quick else 7) + (boost - 1)
+    cap = (800 if tier_quick else 6000) * boost
+    nrand, lrand = ((4, 20) if tier_quick else (20, 64))
     nrand *= boost
     for blk in BLOCKS:
         if only and blk.name not in only: continue
@@ -632,23 +650,34 @@ def sweep(ctx, tier_quick, only=None, boost=1):
             p = dict(p)
             st = stats.setdefault(blk.name, {'configs': 0, 'explored_cases': 0, 'random_histories': 0, 'states': 0})
             st['configs'] += 1
-            if blk.alphabet(p) is not None:
-                cs, nstates, nout = explore(blk, p, depth, cap)
-                st['explored_cases'] += len(cs); st['states'] += nstates
-                for h, rows in cs:
-                    cases.append({'blk': blk, 'p': p, 'hist': h, 'rows': rows, 'kind': 'explore'})
-                    ctx.count(blk.key(p) + (json.dumps(h),), n=1)
-            for k in range(nrand):
-                L = blk.rand_len(p, tier_quick) if hasattr(blk, 'rand_len') else lrand
-                h, rows, nout = random_hist(blk, p, rng, L)
-                st['random_histories'] += 1
-                cases.append({'blk': blk, 'p': p, 'hist': h, 'rows': rows, 'kind': 'random'})
-                ctx.count(blk.key(p) + ('rnd', k, boost), n=len(h))
+            try:
+                if blk.alphabet(p) is not None:
+                    cs, nstates, nout = explore(blk, p, depth, cap)
+                    st['explored_cases'] += len(cs); st['states'] += nstates
+                    for h, rows in cs:
+                        cases.append({'blk': blk, 'p': p, 'hist': h, 'rows': rows, 'kind': 'explore'})
+                        ctx.count(blk.key(p) + (json.dumps(h),), n=1)
+                for k in range(nrand):
+                    L = blk.rand_len(p, tier_quick) if hasattr(blk, 'rand_len') else lrand
+                    h, rows, nout = random_hist(blk, p, rng, L)
+                    st['random_histories'] += 1
+                    cases.append({'blk': blk, 'p': p, 'hist': h, 'rows': rows, 'kind': 'random'})
+                    ctx.count(blk.key(p) + ('rnd', k, boost), n=len(h))
+            except Exception as ex:
+                # every configuration in the catalogue is legal and builds / runs on the pinned tree: an exception is a failure of the block
+                P().Wire.prepared = []
+                if (blk.name, 'raised') not in raised:
+                    raised.add((blk.name, 'raised'))
+                    ctx.violation({'what': '%s cannot be built / clocked in a legal configuration: %s: %s' % (blk.name, type(ex).__name__, ex), 'block': blk.name,
+                                   'recipe': {'block': blk.name, 'params': clean(p), 'drive': 'construct, getSimulator(), clk(1)'}, 'inputs': [],
+                                   'expected': 'the block is built and follows its reference machine', 'observed': traceback.format_exc()[-1200:]})
     ctx.notes.setdefault('sweeps', []).append({'quick': tier_quick, 'boost': boost, 'depth': depth, 'cases': len(cases), 'per_block': stats})
     ctx.log('sweep: %d histories on the real blocks; evaluating models and reference machines in Coq' % len(cases))
-    fails = eval_batches(ctx, cases, 'C09_sweep%d' % boost)
+    fails, spec_only = eval_batches(ctx, cases, 'C09_sweep%d' % boost)
     spec_f = [f for f in fails if f[2] is not None]
     model_f = [f for f in fails if f[1] is not None]
+    if spec_only:
+        model_f.append(('coq', 'Model/SeqBlocks(Run).v does not compile against the regenerated leaves: %s' % ctx.notes.get('model_library_broken'), None))
     for c in cases[:: max(1, len(cases) // 6)]:
         ctx.sample({'block': c['blk'].name, 'params': clean(c['p']), 'inputs': c['hist'][:8], 'impl_rows(powerup first)': c['rows'][:9]})
     return spec_f, model_f
@@ -688,7 +717,7 @@ def run(ctx):
     try:
         spec_f, model_f = sweep(ctx, ctx.quick)
     except RuntimeError as ex:
-        # the model files no longer compile (e.g. a regenerated definition changed its signature): fall back to spec-only? no: report
+        # not even the reference-machine glue could be evaluated
         ctx.notes['sweep_error'] = str(ex)[-2000:]
         spec_f, model_f = [], [('coq', str(ex)[-1500:], None)]
         r = dict(r); r['ok'] = False; r.setdefault('msg', str(ex)[-1500:])
@@ -708,7 +737,7 @@ def run(ctx):
         culprits = sorted({f[0]['blk'].name for f in model_f if isinstance(f[0], dict)}) or None
         ctx.log('tie or proof broken (%s); widening the search' % (culprits or 'all blocks'))
         found = False
-        if not any(f[0] == 'coq' for f in model_f):
+        if 'sweep_error' not in ctx.notes:
             try:
                 spec2, _ = sweep(ctx, False, only=culprits, boost=2)
                 if spec2:
@@ -751,6 +780,12 @@ def replay(rp):
     if name not in BY_NAME or rp.get('kind') == 'broken-obligation':
         print('replay: nothing to drive (broken obligation / harness failure):'); print(json.dumps(rp, indent=1)[:3000]); return 0
     blk = BY_NAME[name]
+    if not rp['inputs'] and isinstance(rp.get('expected'), str):
+        try:
+            run_impl(blk, dict(rec['params']), [blk.rand_row(dict(rec['params']), random.Random(1))])
+            print('replay: %s %s builds and clocks: no longer fails' % (name, rec['params'])); return 0
+        except Exception as ex:
+            print('replay: %s %s STILL FAILS: %s: %s' % (name, rec['params'], type(ex).__name__, ex)); return 1
     rows, nout = run_impl(blk, dict(rec['params']), rp['inputs'])
     exp = rp['expected']
     obs = [r[:len(exp[0])] for r in rows[1:]] if exp else []
